@@ -1,7 +1,7 @@
 //! C17 harness: concrete syntax trees of vhdl_syntax are lossless, tree edits are local.
 //!
 //! usage: c17 <mode> <seed> <n> <cases_out> <impl_out>
-//!   mode = exhaustive<k> | random | file:<path> | deep:<n>[:<k>/<m>]
+//!   mode = exhaustive<k> | random | file:<path> | deep:<n>[:<k>/<m>] | limit[:<k>/<m>] | api
 //!          (file: one input per line, bytes in decimal, or a descriptor `@deep:<shape>:<n>:<c|u>`;
 //!           deep:<n>: every nesting shape of DEEP_SHAPES at depth n, closed and unclosed, each in a child
 //!           process whose worker thread has a 2 MiB stack, so that a stack overflow (process abort) is observed: flag A)
@@ -154,6 +154,8 @@ struct Walk<'a> {
     leaves: Vec<SyntaxToken>,
     tile_bad: bool,
     slice_bad: bool,
+    depth: usize,
+    max_depth: usize,
 }
 
 impl<'a> Walk<'a> {
@@ -161,6 +163,8 @@ impl<'a> Walk<'a> {
         start.checked_add(len).map_or(false, |e| e <= self.input.len() && &self.input[start..e] == bytes)
     }
     fn node(&mut self, n: &SyntaxNode) {
+        self.depth += 1;
+        self.max_depth = self.max_depth.max(self.depth);
         write!(self.events, "S{} ", n.kind() as u32).unwrap();
         write!(self.offsets, "{}:{};", n.offset(), n.byte_len()).unwrap();
         let mut out = Vec::new();
@@ -202,6 +206,7 @@ impl<'a> Walk<'a> {
             self.tile_bad = true;
         }
         self.events.push_str("E ");
+        self.depth -= 1;
     }
 }
 
@@ -323,7 +328,7 @@ fn run_case(input: &[u8], rng: &mut Rng, fixed_repl: Option<&str>, label: Option
             if root.byte_len() != input.len() || root.offset() != 0 {
                 flags.push('B');
             }
-            let mut w = Walk { input, events: String::new(), offsets: String::new(), leaves: vec![], tile_bad: false, slice_bad: false };
+            let mut w = Walk { input, events: String::new(), offsets: String::new(), leaves: vec![], tile_bad: false, slice_bad: false, depth: 0, max_depth: 0 };
             if catch_unwind(AssertUnwindSafe(|| w.node(&root))).is_err() {
                 flags.push('O');
             }
@@ -361,6 +366,39 @@ fn run_case(input: &[u8], rng: &mut Rng, fixed_repl: Option<&str>, label: Option
                 es.truncate(40);
                 es.push(format!("...{}", n));
             }
+            // error spans are aligned with the tokens: Unexpected(..) and token-level lexer errors cover token text
+            // (from the text start of a token to the text end of a token), Expected(..) is an empty span at a token
+            // boundary, an unterminated block comment lies inside the leading trivia of one token
+            {
+                use std::collections::HashSet;
+                let mut starts: HashSet<usize> = HashSet::new();
+                let mut ends: HashSet<usize> = HashSet::new();
+                let mut bounds: HashSet<usize> = HashSet::new();
+                bounds.insert(input.len());
+                for l in &w.leaves {
+                    let tr = l.text_range();
+                    starts.insert(tr.start);
+                    ends.insert(tr.end);
+                    bounds.insert(l.offset());
+                }
+                let mut misaligned = false;
+                for e in &errs {
+                    let (a, b) = (e.span().start, e.span().end);
+                    let ok = match e.err() {
+                        SyntaxErrKind::Expected(_) => a == b && bounds.contains(&a),
+                        SyntaxErrKind::Unterminated(UnterminatedKind::BlockComment) => {
+                            w.leaves.iter().any(|l| l.offset() <= a && a <= b && b <= l.text_range().start)
+                        }
+                        _ => starts.contains(&a) && a <= b && (ends.contains(&b) || a == b),
+                    };
+                    if !ok {
+                        misaligned = true;
+                    }
+                }
+                if misaligned {
+                    flags.push('X');
+                }
+            }
             errors = es.join(";");
             lap!("errors");
             // identity rewrites
@@ -396,15 +434,18 @@ fn run_case(input: &[u8], rng: &mut Rng, fixed_repl: Option<&str>, label: Option
             // (clone_with_leading_trivia) or both, through both rewriting interfaces
             let nt = w.leaves.len();
             // (token index, new text or None = keep, new trivia spec or None = keep)
-            let mut reqs: Vec<(usize, Option<Vec<u8>>, Option<String>)> = Vec::new();
+            // how: c = clone_with_text / clone_with_leading_trivia; s = Token::clone + set_leading_trivia + clone_with_token
+            // (trivia requests); n = Token::new(kind, text, trivia) + clone_with_token
+            let mut reqs: Vec<(usize, Option<Vec<u8>>, Option<String>, char)> = Vec::new();
             if let Some(f) = fixed_repl {
                 for r in f.split(',').filter(|x| !x.is_empty()) {
                     let p: Vec<&str> = r.split(':').collect();
                     let idx = p[0].parse().unwrap();
                     if p.len() == 2 {
-                        reqs.push((idx, Some(unhex(p[1])), None));
+                        reqs.push((idx, Some(unhex(p[1])), None, 'c'));
                     } else {
-                        reqs.push((idx, if p[1] == "-" { None } else { Some(unhex(p[1])) }, if p[2] == "-" { None } else { Some(p[2].to_string()) }));
+                        let how = p.get(3).and_then(|h| h.chars().next()).unwrap_or('c');
+                        reqs.push((idx, if p[1] == "-" { None } else { Some(unhex(p[1])) }, if p[2] == "-" { None } else { Some(p[2].to_string()) }, how));
                     }
                 }
             } else if nt > 0 {
@@ -419,14 +460,16 @@ fn run_case(input: &[u8], rng: &mut Rng, fixed_repl: Option<&str>, label: Option
                     let mode = if k == 0 { 1 } else { rng.below(3) };
                     let text = if mode != 1 { Some(REPL_TEXTS[rng.below(REPL_TEXTS.len())].to_vec()) } else { None };
                     let triv = if mode != 0 { Some(REPL_TRIVIA[rng.below(REPL_TRIVIA.len())].to_string()) } else { None };
-                    reqs.push((i, text, triv));
+                    // every public way to make the replacement token, in turn
+                    let how = ['c', 's', 'n'][(k + rng.below(3)) % 3];
+                    reqs.push((i, text, triv, how));
                 }
             }
             let mut rq = Vec::new();
             let mut rs = Vec::new();
             let mut local_bad = false;
-            for (k, (i, text, triv)) in reqs.iter().enumerate() {
-                rq.push(format!("{}:{}:{}", i, text.as_ref().map(|t| if t.is_empty() { "".to_string() } else { hex(t) }).unwrap_or_else(|| "-".to_string()), triv.clone().unwrap_or_else(|| "-".to_string())));
+            for (k, (i, text, triv, how)) in reqs.iter().enumerate() {
+                rq.push(format!("{}:{}:{}:{}", i, text.as_ref().map(|t| if t.is_empty() { "".to_string() } else { hex(t) }).unwrap_or_else(|| "-".to_string()), triv.clone().unwrap_or_else(|| "-".to_string()), how));
                 if *i >= nt {
                     rs.push("-,-".to_string());
                     continue;
@@ -453,13 +496,37 @@ fn run_case(input: &[u8], rng: &mut Rng, fixed_repl: Option<&str>, label: Option
                     None
                 };
                 let make = |t: &SyntaxToken| -> SyntaxToken {
-                    let t1 = match text {
-                        Some(x) => t.clone_with_text(x.as_slice()),
-                        None => t.clone(),
-                    };
-                    match &new_trivia {
-                        Some(tv) => t1.clone_with_leading_trivia(tv.clone()),
-                        None => t1,
+                    match how {
+                        // a copy of the original token, modified in place by the public setter
+                        's' => {
+                            let mut tk: Token = match text {
+                                Some(x) => Token::new(t.kind(), x.as_slice(), t.leading_trivia().clone()),
+                                None => t.token().clone(),
+                            };
+                            if let Some(tv) = &new_trivia {
+                                tk.set_leading_trivia(tv.clone());
+                            }
+                            t.clone_with_token(tk)
+                        }
+                        // a freshly constructed token
+                        'n' => {
+                            let tv = new_trivia.clone().unwrap_or_else(|| t.leading_trivia().clone());
+                            let tk = match text {
+                                Some(x) => Token::new(t.kind(), x.as_slice(), tv),
+                                None => Token::new(t.kind(), t.text(), tv),
+                            };
+                            t.clone_with_token(tk)
+                        }
+                        _ => {
+                            let t1 = match text {
+                                Some(x) => t.clone_with_text(x.as_slice()),
+                                None => t.clone(),
+                            };
+                            match &new_trivia {
+                                Some(tv) => t1.clone_with_leading_trivia(tv.clone()),
+                                None => t1,
+                            }
+                        }
                     }
                 };
                 let a = catch_unwind(AssertUnwindSafe(|| {
@@ -490,7 +557,7 @@ fn run_case(input: &[u8], rng: &mut Rng, fixed_repl: Option<&str>, label: Option
                             }
                             // offsets of the new tree tile the new text (every request of short inputs, else the first)
                             if (k == 0 || input.len() <= 300) && !big {
-                                let mut w2 = Walk { input: &v, events: String::new(), offsets: String::new(), leaves: vec![], tile_bad: false, slice_bad: false };
+                                let mut w2 = Walk { input: &v, events: String::new(), offsets: String::new(), leaves: vec![], tile_bad: false, slice_bad: false, depth: 0, max_depth: 0 };
                                 if catch_unwind(AssertUnwindSafe(|| w2.node(nr))).is_err() || w2.tile_bad || w2.slice_bad {
                                     local_bad = true;
                                 }
@@ -586,9 +653,44 @@ fn deep_input(shape: usize, n: usize, closed: bool) -> Vec<u8> {
     s.into_bytes()
 }
 
-/// `@deep:<shape>:<n>:<c|u>` -> (input, no syntax error expected)
+/// Sweep across the parser's limit of open nodes: every nesting level on its own line, preceded by a comment
+/// line and indentation (long leading trivia before the token that opens the level), unclosed, cut right
+/// after level n, followed by a short tail (or with the last one or two bytes cut off).
+const LIMIT_TAILS: &[&str] = &["", " ", "\n1", "<cut1>", "<cut2>"];
+fn limit_input(shape: usize, n: usize, tail: usize) -> Vec<u8> {
+    let (_, prefix, open, _, _, _, _) = DEEP_SHAPES[shape];
+    let mut s = String::from(prefix);
+    for i in 0..n {
+        s.push_str(&format!("\n-- nesting level {} of the sweep across the limit of open nodes\n", i));
+        s.push_str(&" ".repeat(2 * (i % 24)));
+        s.push_str(open.trim_end_matches('\n'));
+    }
+    let mut b = s.into_bytes();
+    match LIMIT_TAILS[tail] {
+        "<cut1>" => {
+            b.pop();
+        }
+        "<cut2>" => {
+            b.pop();
+            b.pop();
+        }
+        t => b.extend_from_slice(t.as_bytes()),
+    }
+    b
+}
+
+/// `@deep:<shape>:<n>:<c|u>` / `@limit:<shape>:<n>:<tail>` -> (input, no syntax error expected)
 fn parse_descriptor(d: &str) -> Option<(Vec<u8>, bool)> {
     let p: Vec<&str> = d.split(':').collect();
+    if p.len() == 4 && p[0] == "@limit" {
+        let shape: usize = p[1].parse().ok()?;
+        let n: usize = p[2].parse().ok()?;
+        let tail: usize = p[3].parse().ok()?;
+        if shape >= DEEP_SHAPES.len() || tail >= LIMIT_TAILS.len() {
+            return None;
+        }
+        return Some((limit_input(shape, n, tail), false));
+    }
     if p.len() != 4 || p[0] != "@deep" {
         return None;
     }
@@ -632,6 +734,123 @@ fn run_in_child(d: &str, seed: u64, cases_path: &str) -> (String, String) {
             format!("A|BIG|BIG|||||child process died on a 2 MiB stack: {:?}\n", st.map(|x| x.to_string())),
         )
     }
+}
+
+// ------------------------------------------------------------------------------------------------
+// api stream: every public way to construct or modify tokens and nodes outside the parser
+// (Token::new, Token::set_leading_trivia, the builder domain types' with_trivia, the generated builders'
+// with_<token>(..) / with_<token>_trivia(..) setters, composite builders = NodeBuilder::push_node)
+// ------------------------------------------------------------------------------------------------
+const API_CASES: usize = 14;
+
+fn api_build(k: usize, tv: Trivia) -> Result<SyntaxNode, (usize, Vec<u8>)> {
+    use vhdl_syntax::builder::{AbstractLiteral, BitStringLiteral, CharLiteral, Identifier, StringLiteral};
+    use vhdl_syntax::syntax::*;
+    use vhdl_syntax::tokens::Keyword as Kw;
+    let tok_check = |t: Token| -> Result<SyntaxNode, (usize, Vec<u8>)> {
+        let mut out = Vec::new();
+        t.write_to(&mut out).unwrap();
+        Err((t.byte_len(), out))
+    };
+    match k {
+        0 => Ok(EntityDeclarationPreambleBuilder::new(Identifier::from(b"e").with_trivia(tv)).build().raw()),
+        1 => Ok(EntityDeclarationPreambleBuilder::new(Identifier::from(b"e"))
+            .with_entity_token_trivia(tv.clone())
+            .with_name_token_trivia(tv.clone())
+            .with_is_token_trivia(tv)
+            .build()
+            .raw()),
+        2 => Ok(ArchitectureEpilogueBuilder::new().with_end_token_trivia(tv.clone()).with_semi_colon_token_trivia(tv).build().raw()),
+        3 => Ok(ArchitectureEpilogueBuilder::new()
+            .with_architecture_token(Token::new(TokenKind::Keyword(Kw::Architecture), b"architecture", tv.clone()))
+            .with_identifier_token(Identifier::from(b"a").with_trivia(tv.clone()))
+            .with_identifier_token_trivia(tv)
+            .build()
+            .raw()),
+        4 => Ok(LabelBuilder::new(Identifier::from(b"l")).with_identifier_token_trivia(tv.clone()).with_colon_token_trivia(tv).build().raw()),
+        5 => Ok(PackageBodyPreambleBuilder::new(Identifier::from(b"p")).with_body_token_trivia(tv.clone()).with_package_token_trivia(tv).build().raw()),
+        6 => Ok(ProcessEpilogueBuilder::new().with_process_token_trivia(tv.clone()).with_end_token_trivia(tv).build().raw()),
+        7 => Ok(OthersChoiceBuilder::new().with_others_token_trivia(tv).build().raw()),
+        // composite builders: children are pushed as green nodes
+        8 => Ok(EntityDeclarationBuilder::new(EntityDeclarationPreambleBuilder::new(Identifier::from(b"e").with_trivia(tv.clone())).with_is_token_trivia(tv))
+            .build()
+            .raw()),
+        9 => Ok(EntityDeclarationBuilder::new(EntityDeclarationPreambleBuilder::new(Identifier::from(b"e")))
+            .with_entity_declaration_epilogue(EntityDeclarationEpilogueBuilder::new().with_end_token_trivia(tv.clone()).with_semi_colon_token_trivia(tv))
+            .build()
+            .raw()),
+        // tokens
+        10 => tok_check(Token::from(StringLiteral::new("s").with_trivia(tv))),
+        11 => tok_check(Token::from(CharLiteral::new(b'a').with_trivia(tv.clone()))).or_else(|a| {
+            let b = tok_check(Token::from(AbstractLiteral::integer(12).with_trivia(tv.clone()))).unwrap_err();
+            let c = tok_check(Token::from(BitStringLiteral::hex(b"ff").with_trivia(tv.clone()))).unwrap_err();
+            Err((a.0 + b.0 + c.0, [a.1, b.1, c.1].concat()))
+        }),
+        12 => {
+            let mut t = Token::new(TokenKind::Identifier, b"x", Trivia::from(vec![TriviaPiece::Spaces(3)]));
+            t.set_leading_trivia(tv);
+            tok_check(t)
+        }
+        _ => {
+            // a token whose trivia were set twice, then put into a node
+            let mut t = Token::new(TokenKind::Keyword(Kw::End), b"end", Trivia::from(vec![TriviaPiece::LineFeeds(2)]));
+            t.set_leading_trivia(Trivia::new());
+            t.set_leading_trivia(tv);
+            Ok(ArchitectureEpilogueBuilder::new().with_end_token(t).build().raw())
+        }
+    }
+}
+
+/// Oracle for a constructed node / token: cached lengths equal printed lengths, offsets tile, every element
+/// is the slice of the printed text at its range, the requested trivia are printed.
+fn run_api_case(k: usize, t: usize) -> (String, String) {
+    take_panic();
+    let spec = REPL_TRIVIA[t];
+    let tv = parse_trivia(spec);
+    let mut tvb = Vec::new();
+    tv.write_to(&mut tvb).unwrap();
+    let mut flags = String::new();
+    let mut detail = String::new();
+    match catch_unwind(AssertUnwindSafe(|| api_build(k, tv))) {
+        Err(_) => flags.push('P'),
+        Ok(Err((len, bytes))) => {
+            if len != bytes.len() {
+                flags.push('B');
+            }
+            if !bytes.windows(tvb.len().max(1)).any(|w| w == tvb.as_slice()) && !tvb.is_empty() {
+                flags.push('L');
+            }
+            detail = format!("byte_len={} printed={}", len, hex(&bytes));
+        }
+        Ok(Ok(root)) => {
+            let v = printed(&root);
+            if root.byte_len() != v.len() || root.offset() != 0 {
+                flags.push('B');
+            }
+            let mut w = Walk { input: &v, events: String::new(), offsets: String::new(), leaves: vec![], tile_bad: false, slice_bad: false, depth: 0, max_depth: 0 };
+            if catch_unwind(AssertUnwindSafe(|| w.node(&root))).is_err() || w.tile_bad {
+                flags.push('O');
+            }
+            if w.slice_bad {
+                flags.push('D');
+            }
+            if !tvb.is_empty() && !v.windows(tvb.len()).any(|x| x == tvb.as_slice()) {
+                flags.push('L');
+            }
+            // identity rewrites of a built tree
+            if root.rewrite(|_| RewriteAction::Leave) != root {
+                flags.push('R');
+            }
+            if TokenRewriter::new(Keep).rewrite(root.clone()) != root {
+                flags.push('K');
+            }
+            detail = format!("byte_len={} printed={}", root.byte_len(), hex(&v));
+        }
+    }
+    if flags.is_empty() {
+        flags.push('-');
+    }
+    (format!("@api:{}:{}||", k, t), format!("{}|BIG|BIG||{}|||{}", flags, detail, take_panic()))
 }
 
 fn library_files() -> Vec<Vec<u8>> {
@@ -792,6 +1011,13 @@ fn main() {
                     let b = parts.next().unwrap_or("");
                     let _tree = parts.next();
                     let repl = parts.next();
+                    if let Some(rest) = b.strip_prefix("@api:") {
+                        let (k, t) = rest.split_once(':').unwrap();
+                        let (c, i) = run_api_case(k.parse().unwrap(), t.parse().unwrap());
+                        writeln!(cases, "{}", c).unwrap();
+                        writeln!(imp, "{}", i).unwrap();
+                        continue;
+                    }
                     if b.starts_with('@') && std::env::var("C17_CHILD").is_err() {
                         let (c, i) = run_in_child(line, seed, &cases_path);
                         write!(cases, "{}", c).unwrap();
@@ -820,6 +1046,51 @@ fn main() {
                             x /= a;
                         }
                         emit_to(&mut cases, &mut imp, &s, &mut rng, None, None, false);
+                    }
+                }
+            } else if mode == "api" {
+                for k in 0..API_CASES {
+                    for t in 0..REPL_TRIVIA.len() {
+                        let (c, i) = run_api_case(k, t);
+                        writeln!(cases, "{}", c).unwrap();
+                        writeln!(imp, "{}", i).unwrap();
+                    }
+                }
+            } else if let Some(part) = mode.strip_prefix("limit") {
+                // limit or limit:<k>/<m> (only the shapes with index % m == k)
+                let (pk, pm) = part.strip_prefix(':').and_then(|x| x.split_once('/')).map(|(a, b)| (a.parse::<usize>().unwrap(), b.parse::<usize>().unwrap())).unwrap_or((0, 1));
+                // for every nesting shape: the smallest number of levels at which the tree reaches the limit of
+                // open nodes (binary search on the depth of the parsed tree), then every level count around it
+                for shape in (0..DEEP_SHAPES.len()).filter(|x| x % pm == pk) {
+                    let depth_of = |n: usize| -> usize {
+                        let inp = limit_input(shape, n, 0);
+                        catch_unwind(AssertUnwindSafe(|| {
+                            let (file, _) = vhdl_syntax::parser::parse(inp.as_slice());
+                            let root = file.raw();
+                            let mut w = Walk { input: &inp, events: String::new(), offsets: String::new(), leaves: vec![], tile_bad: false, slice_bad: false, depth: 0, max_depth: 0 };
+                            w.node(&root);
+                            w.max_depth
+                        }))
+                        .unwrap_or(usize::MAX)
+                    };
+                    let (mut lo, mut hi) = (1usize, 1400usize);
+                    if depth_of(hi) < 1020 {
+                        continue;
+                    }
+                    while lo < hi {
+                        let mid = (lo + hi) / 2;
+                        if depth_of(mid) >= 1020 {
+                            hi = mid;
+                        } else {
+                            lo = mid + 1;
+                        }
+                    }
+                    for n in lo.saturating_sub(2)..=lo + 4 {
+                        for tail in 0..LIMIT_TAILS.len() {
+                            let d = format!("@limit:{}:{}:{}", shape, n, tail);
+                            let inp = limit_input(shape, n, tail);
+                            emit_to(&mut cases, &mut imp, &inp, &mut rng, None, Some(&d), false);
+                        }
                     }
                 }
             } else if let Some(n) = mode.strip_prefix("deep:") {
